@@ -84,9 +84,19 @@ pub fn phase(sim: &mut Sim, rng: &mut Rng, rep: &mut Report) -> Result<(), Strin
 			sim.settled(rep);
 		}
 	}
+	// justice focus (C06, a third of the runs): three to five HTLCs all offered by the future victim, every
+	// preimage known to the future cheater when its state is captured (so that its HTLC-success transactions
+	// exist), and the close is by that revoked state
+	let focus: Option<(usize, usize)> = if sim.w.justice_focus && rng.chance(1, 3) { Some(if rng.chance(1, 2) { (a, b) } else { (b, a) }) } else { None };
+	if focus.is_some() {
+		rep.count("onchain_justice_focus_runs");
+	}
 	// a few more HTLCs above the dust limit, committed but unresolved when the channel closes
-	for _ in 0..rng.below(5) {
-		let (src, dst) = if rng.chance(1, 2) { (a, b) } else { (b, a) };
+	for _ in 0..(if focus.is_some() { 3 + rng.below(3) } else { rng.below(5) }) {
+		let (src, dst) = match focus {
+			Some(f) => f,
+			None => if rng.chance(1, 2) { (a, b) } else { (b, a) },
+		};
 		let cid = sim.w.chans[ci].chan_id();
 		if let Some(d) = sim.w.nodes[src].mgr.list_usable_channels().into_iter().find(|c| c.channel_id == cid) {
 			let hi = d.next_outbound_htlc_limit_msat;
@@ -97,7 +107,7 @@ pub fn phase(sim: &mut Sim, rng: &mut Rng, rep: &mut Report) -> Result<(), Strin
 			}
 		}
 	}
-	if rng.chance(3, 4) {
+	if focus.is_some() || rng.chance(3, 4) {
 		sim.w.deliver_all(10_000);
 		for k in 0..n {
 			sim.w.complete_all(k);
@@ -111,12 +121,13 @@ pub fn phase(sim: &mut Sim, rng: &mut Rng, rep: &mut Report) -> Result<(), Strin
 	}
 	sim.dispatch(rep);
 	// capture the states that carry these HTLCs, then move the channel on so that they become revoked
-	if rng.chance(3, 4) {
+	let mut focus_capture: Option<bitcoin::Txid> = None;
+	if focus.is_some() || rng.chance(3, 4) {
 		// some preimages are already known to the recipient's monitor when its state is captured (its
 		// HTLC-success transactions then exist), the fulfil not yet delivered
 		let mut k = 0;
 		while k < sim.w.claimable.len() {
-			if rng.chance(1, 2) {
+			if focus.is_some() || rng.chance(1, 2) {
 				sim.w.note(format!("ONCHAIN-PREP claim claimable {} before the states are captured", k));
 				sim.w.claim(k);
 			} else {
@@ -125,6 +136,9 @@ pub fn phase(sim: &mut Sim, rng: &mut Rng, rep: &mut Report) -> Result<(), Strin
 		}
 		capture(sim, a, ci);
 		capture(sim, b, ci);
+		if let Some((_, cheater)) = focus {
+			focus_capture = sim.w.captured.iter().rev().find(|c| c.chan == ci && c.node == cheater && c.step == sim.w.step).map(|c| c.txid);
+		}
 		for _ in 0..1 + rng.below(2) {
 			let (src, dst) = if rng.chance(1, 2) { (a, b) } else { (b, a) };
 			let cid = sim.w.chans[ci].chan_id();
@@ -174,8 +188,15 @@ pub fn phase(sim: &mut Sim, rng: &mut Rng, rep: &mut Report) -> Result<(), Strin
 	// --- 2. the close ---
 	let revoked: Vec<usize> = sim.w.captured.iter().enumerate().filter(|(_, c)| c.chan == ci && sim.w.is_revoked(c)).map(|(i, _)| i).collect();
 	let rec;
-	if !revoked.is_empty() && rng.chance(1, 2) {
-		let c = sim.w.captured[if rng.chance(1, 2) { *revoked.last().unwrap() } else { *rng.pick(&revoked) }].clone();
+	let focus_idx = focus_capture.and_then(|t| revoked.iter().cloned().find(|i| sim.w.captured[*i].txid == t));
+	if focus_idx.is_some() {
+		rep.count("onchain_justice_focus_closes");
+	}
+	if !revoked.is_empty() && (focus_idx.is_some() || rng.chance(1, 2)) {
+		let c = sim.w.captured[match focus_idx {
+			Some(i) => i,
+			None => if rng.chance(1, 2) { *revoked.last().unwrap() } else { *rng.pick(&revoked) },
+		}].clone();
 		sim.w.step += 1;
 		sim.w.note(format!("ONCHAIN node{} cheats: its revoked commitment {} (captured at step {}) is broadcast", c.node, c.txid, c.step));
 		sim.w.chans[ci].fault = Some("revoked commitment broadcast".into());
@@ -220,6 +241,10 @@ pub fn phase(sim: &mut Sim, rng: &mut Rng, rep: &mut Report) -> Result<(), Strin
 	let start = sim.w.chain.height();
 	let mut quiet_blocks = 0;
 	let mut attacker_stage2_done = false;
+	// the cheater's second-stage transactions that are out but not confirmed; in half of the runs they reach
+	// the miner after whatever the victim broadcasts (and so win the race for the outputs they spend)
+	let mut attacker_live: Vec<Transaction> = vec![];
+	let cheater_last_word = rng.chance(1, 2);
 	for _ in 0..600 {
 		let before = sim.w.chain.stats_validated;
 		if fee_market && rng.chance(1, 8) {
@@ -237,6 +262,73 @@ pub fn phase(sim: &mut Sim, rng: &mut Rng, rep: &mut Report) -> Result<(), Strin
 			sim.w.fee_now = new;
 			sim.w.miner_min_feerate = new;
 			rep.count("onchain_fee_level_changes");
+		}
+		// a competing fork: the last d < 6 blocks (never below the height at which the close began) leave
+		// the chain; the cheater may not bother to get its second-stage transactions confirmed again
+		// (no block that ever had six confirmations is disconnected: depth is counted from the highest tip seen)
+		let floor = start.max(sim.w.peak_height.saturating_sub(5));
+		// (when the cheater's second-stage transactions are fresh on the chain a fork is more likely, and half of
+		// those forks branch off right above the block of the commitment transaction)
+		let tip = sim.w.chain.height();
+		let stage2_fresh = sim.w.close.as_ref().map(|c| c.attacker_txids.iter().skip(1).any(|t| sim.w.chain.confirmed_at.get(t).map(|h| *h + 5 > tip).unwrap_or(false))).unwrap_or(false);
+		if sim.w.reorgs && tip > floor && (rng.chance(1, 10) || (stage2_fresh && rng.chance(1, 4))) {
+			let mut d = (1 + rng.below(5) as u32).min(tip - floor);
+			if let Some(hc) = sim.w.close.as_ref().and_then(|c| c.commitment_txid).and_then(|t| sim.w.chain.confirmed_at.get(&t).cloned()) {
+				if stage2_fresh && hc >= floor && tip > hc && rng.chance(1, 2) {
+					d = tip - hc;
+				}
+			}
+			let mut drop: std::collections::HashSet<bitcoin::Txid> = Default::default();
+			let second_stage: Vec<bitcoin::Txid> = sim.w.close.as_ref().map(|c| c.attacker_txids.iter().skip(1).cloned().collect()).unwrap_or_default();
+			let in_gone = |w: &crate::sim::World, t: &bitcoin::Txid| w.chain.confirmed_at.get(t).map(|h| *h > w.chain.height() - d).unwrap_or(false);
+			let stage2_gone = second_stage.iter().filter(|t| in_gone(&sim.w, t)).count();
+			if rng.chance(1, 2) {
+				drop.extend(second_stage.iter().cloned());
+				attacker_live.clear();
+			}
+			if let Some(t) = sim.w.close.as_ref().and_then(|c| c.commitment_txid) {
+				if in_gone(&sim.w, &t) {
+					rep.count("onchain_reorgs_unconfirming_the_commitment");
+				}
+			}
+			let announce = rng.chance(1, 2);
+			sim.w.note(format!("ONCHAIN reorg: {} blocks leave the chain (fork tip announced: {}, cheater drops its second stage: {})", d, announce, !drop.is_empty()));
+			let gone = sim.w.reorg(d, &drop, announce);
+			rep.count("onchain_reorgs");
+			rep.add("onchain_reorg_blocks_disconnected", d as u64);
+			rep.add("onchain_reorg_txs_unconfirmed", gone.iter().map(|b| b.txs.len() as u64).sum());
+			if stage2_gone > 0 {
+				rep.count("onchain_reorgs_unconfirming_cheater_second_stage");
+			}
+			if stage2_gone > 1 {
+				rep.count("onchain_reorgs_unconfirming_several_cheater_second_stage");
+				let commitment_stays = sim.w.close.as_ref().and_then(|c| c.commitment_txid).map(|t| sim.w.chain.confirmed_at.contains_key(&t)).unwrap_or(false);
+				if !drop.is_empty() && commitment_stays {
+					rep.count("onchain_reorgs_after_which_the_cheater_abandons_several_second_stage_txs");
+					if std::env::var("VERIF_ONCHAIN_DUMP").is_ok() {
+						eprintln!("REORG-HIT {} several second-stage transactions unconfirmed and abandoned", sim.label);
+					}
+				}
+			}
+			events_all(sim, rep);
+			if !copies.is_empty() {
+				crate::chainequiv::on_reorg(sim, &mut copies, &gone, rng, rep);
+			}
+			if !sim.raised.is_empty() {
+				return Ok(());
+			}
+		}
+		if cheater_last_word && !attacker_live.is_empty() {
+			sim.w.relay_broadcasts();
+			attacker_live.retain(|t| !sim.w.chain.confirmed_at.contains_key(&t.compute_txid()));
+			let mut still = vec![];
+			for t in attacker_live.drain(..) {
+				match sim.w.chain.relay(&t) {
+					crate::chain::TxVerdict::Valid | crate::chain::TxVerdict::ValidChild => still.push(t),
+					_ => {},
+				}
+			}
+			attacker_live = still;
 		}
 		sim.w.mine(1);
 		for k in 0..n {
@@ -263,6 +355,7 @@ pub fn phase(sim: &mut Sim, rng: &mut Rng, rep: &mut Report) -> Result<(), Strin
 					if rng.chance(2, 3) {
 						sim.w.miner_exempt.insert(t.compute_txid());
 						sim.w.chain.relay(&t);
+						attacker_live.push(t.clone());
 						sim.w.note(format!("ONCHAIN cheater broadcasts its HTLC transaction {}", t.compute_txid()));
 						if let Some(c) = sim.w.close.as_mut() {
 							c.attacker_txids.push(t.compute_txid());
@@ -301,6 +394,11 @@ pub fn phase(sim: &mut Sim, rng: &mut Rng, rep: &mut Report) -> Result<(), Strin
 		if drained && quiet_blocks >= 8 && sim.w.chain.height() >= start + 8 {
 			break;
 		}
+	}
+	// (what was reported spendable at the highest tip is swept once the chain is that high again)
+	while sim.w.chain.height() < sim.w.peak_height {
+		sim.w.mine(1);
+		events_all(sim, rep);
 	}
 	rep.add("onchain_blocks_mined", (sim.w.chain.height() - start) as u64);
 	sim.w.miner_min_feerate = 0;
